@@ -61,6 +61,12 @@ impl Interp {
                 extra.push((k, v.to_string()));
             }
         }
+        if op == "poly" {
+            let deg = ev["deg"].as_u64().unwrap_or(1) as u32;
+            let parts = ev["parts"].as_u64().unwrap_or(0) as usize;
+            let cs: Vec<Vec<u64>> = ev["cs"].as_array().map(|a| a.iter().map(|c| c.as_array().map(|p| p.iter().map(|v| val_from_json(v).u()).collect()).unwrap_or_default()).collect()).unwrap_or_default();
+            return (crate::poly::poly_event(t, x[0], deg, parts, &cs), None);
+        }
         if op == "load" {
             let out = Outcome::Ok(vec![args[0].1.clone()]);
             return (event(op, t, sp, &extra, &args, &out), None);
